@@ -55,6 +55,17 @@ def _triple(cat):
         c.prove("compose.offset", sx.zclose(abc.offset, ac.offset, rtol=1e-12), replay=rp)
         c.prove("roundtrip.sampling", sx.zclose(aba.sampling, x, rtol=1e-12), replay=rp)
         c.prove("roundtrip.offset", sx.zclose(aba.offset, off, rtol=1e-12), replay=rp)
+        # callers such as the plotting helpers forward the energy whatever the categories are
+        en = c.real("energy", 1e3, 1e6)
+        c.assume(LAM(_z(en)) > 0)
+        try:
+            abe = ax.convert_units(b, energy=en)
+            fe = U.get_conversion_factor(b, a, energy=en)
+        except (KeyError, RuntimeError, ValueError, AssertionError) as ex:
+            c.prove("convert.no_exception_with_energy", False, replay=rp, info=repr(ex))
+            return
+        c.prove("energy_argument_irrelevant_within_category", zand(sx.zclose(abe.sampling, ab.sampling, rtol=1e-12), sx.zclose(abe.offset, ab.offset, rtol=1e-12),
+                                                                   sx.zclose(fe, U.get_conversion_factor(b, a), rtol=1e-12)), replay=rp)
         f = U.get_conversion_factor(b, a)
         g = U.get_conversion_factor(a, b)
         c.prove("factor.inverse", sx.zclose(SNum(_z(f) * _z(g)), 1, rtol=1e-12), replay=rp)
@@ -78,6 +89,9 @@ def R_T(cat):
         if not (close(aba.sampling, x) and close(aba.offset, off)): bad, why = True, f"{a}->{b}->{a} maps {x} to {aba.sampling}"
         f = get_conversion_factor(b, a); g = get_conversion_factor(a, b)
         if not (f > 0 and close(f * g, 1.0)): bad, why = True, f"factors {a}->{b} {f}, back {g}"
+        e = float(V.get('energy', 100e3))
+        abe = ax.convert_units(b, energy=e)
+        if not (close(abe.sampling, ab.sampling) and close(get_conversion_factor(b, a, energy=e), f)): bad, why = True, f"{a}->{b} with energy={e} gives {abe.sampling}, without {ab.sampling}"
     except (KeyError, RuntimeError, ValueError, AssertionError) as ex:
         bad, why = True, f"conversion {a}->{b}->{d} raised {ex!r}"
 """, UNITS=CATS[cat])
